@@ -149,6 +149,18 @@ def c17(tier, seed):
     ]
 
 
+def c19(tier, seed):
+    q = tier == "quick"
+    gc = dict(MaxArgs=2 if q else 3, ArgSet="<-Args12", OptSet="<-OptsAll")
+    return [
+        MC("Gen_Flags", dict(gc, MaxArgs=2, Groups="={}"), invariants=["IsFold", "LastWins", "BareTrue"],
+           properties=["Sticky", "EmptyIgnored"], label="MC_Flags/fold"),
+        GEN("Gen_Flags", dict(gc, MaxArgs=3), "flags", label="Gen_Flags/sequences", min_cases=10000),
+        TRACE("Trace_Flags", "flags", n=2000 if q else 40000, label="Trace_Flags/random-sequences",
+              trace_file="trace_flags.ndjson"),
+    ]
+
+
 ASSUME_COMMON = [
     "the public-API observation (Unpack into map and slice, canonicalised) reads the abstract state faithfully",
     "TLC, the JVM, the Go toolchain and runtime",
@@ -168,6 +180,12 @@ NORM_RULE = ("Gen_Normalize: every ordered input of <= 3 entries over 5 overlapp
              "non-trivial = at least two entries; distinct by input")
 
 CHECKS = {
+    "C19": dict(stages=c19, family="flags",
+                rule="Gen_Flags: every sequence of <= 3 arguments over 14 argument shapes (dotted/indexed keys; scalar, comma list, "
+                     "[list], {object}, object with dotted key, bare key, empty value, malformed values) x 7 option sets (no separator, "
+                     "PathSep with each merge policy, autoBool off); Trace_Flags: random sequences of <= 8 arguments. "
+                     "non-trivial = at least two arguments; distinct by (arguments, options)",
+                assumptions=ASSUME_COMMON),
     "C17": dict(stages=c17, family="parse",
                 rule="Gen_Parse: every character string of length <= 4 (quick) / 5 (thorough) over the 16-character alphabet "
                      "[ ] { } , : \" ' \\ space z 9 - n t / under DefaultConfig, EnvConfig, NoopConfig and IgnoreCommas, plus JSON documents "
